@@ -168,8 +168,72 @@ let cmd_hdr rest =
              ^ " " ^ q_str o.ho_amp) outs))
   | _ -> "BAD"
 
+(* widths K a_num a_den len dt n data[n] -> median | widths[K] | deciles[K] (all as num den) *)
+let cmd_widths rest =
+  match ints rest with
+  | k :: an :: ad :: len :: dt :: n :: r ->
+      let data = take n r in
+      let ((m, w), d) = compute_widths (nat_of_int k) (q_of_frac an ad) (z_of_int len) (z_of_int dt)
+                          (List.map q_of_int data) in
+      String.concat " " (List.map q_str (m :: (w @ d)))
+  | _ -> "BAD"
+
+(* center time len dt n data[n] *)
+let cmd_center rest =
+  match ints rest with
+  | time :: len :: dt :: n :: r ->
+      string_of_int (iz (center_time (z_of_int time) (z_of_int len) (z_of_int dt) (zl (take n r))))
+  | _ -> "BAD"
+
+(* groups gap lext rext maxdur n (time endtime)[n] *)
+let cmd_groups rest =
+  match ints rest with
+  | gap :: lext :: rext :: maxdur :: n :: r ->
+      let rec pk k l = if k = 0 then [] else
+        (match l with t :: e :: tl -> (z_of_int t, z_of_int e) :: pk (k - 1) tl | _ -> failwith "pk") in
+      (match find_peak_groups (z_of_int gap) (z_of_int lext) (z_of_int rext) (z_of_int maxdur) (pk n r) with
+       | Err e -> Printf.sprintf "err %d" (iz e)
+       | Ok l -> String.concat " " ("ok" :: List.map (fun (a, b) -> Printf.sprintf "%d %d" (iz a) (iz b)) l))
+  | _ -> "BAD"
+
+(* lone ng gains[ng] nch ns np (t len dt area apc[nch] data[ns])[np] nl (fc t ch area)[nl] *)
+let cmd_lone rest =
+  match ints rest with
+  | ng :: r ->
+      let (gains, r) = split ng r in
+      (match r with
+       | nch :: ns :: np :: r ->
+           let rec peaks k l = if k = 0 then ([], l) else
+             (match l with
+              | t :: len :: dt :: area :: tl ->
+                  let (apc, tl) = split nch tl in
+                  let (data, tl) = split ns tl in
+                  let (ps, tl) = peaks (k - 1) tl in
+                  ({ lp_t = z_of_int t; lp_len = z_of_int len; lp_dt = z_of_int dt; lp_area = z_of_int area;
+                     lp_apc = zl apc; lp_data = zl data } :: ps, tl)
+              | _ -> failwith "peaks") in
+           let (ps, r) = peaks np r in
+           let nl = List.hd r in
+           let rec lh k l = if k = 0 then ([], []) else
+             (match l with
+              | fc :: t :: ch :: area :: tl ->
+                  let (fcs, hs) = lh (k - 1) tl in
+                  (z_of_int fc :: fcs, { lh_t = z_of_int t; lh_ch = z_of_int ch; lh_area = z_of_int area } :: hs)
+              | _ -> failwith "lh") in
+           let (fcs, hs) = lh nl (List.tl r) in
+           (match add_lone_hits (zl gains) ps fcs hs with
+            | Err e -> Printf.sprintf "err %d" (iz e)
+            | Ok l -> String.concat " | " ("ok" :: List.map (fun p ->
+                join ([iz p.lp_t; iz p.lp_len; iz p.lp_dt; iz p.lp_area] @ List.map iz p.lp_apc @ List.map iz p.lp_data)) l))
+       | _ -> "BAD")
+  | _ -> "BAD"
+
 let handle toks =
   match toks with
+  | "groups" :: rest -> cmd_groups rest
+  | "lone" :: rest -> cmd_lone rest
+  | "widths" :: rest -> cmd_widths rest
+  | "center" :: rest -> cmd_center rest
   | "hdr" :: rest -> cmd_hdr rest
   | "sum_waveform" :: rest -> cmd_sum_waveform rest
   | "split" :: rest -> cmd_split rest
